@@ -215,8 +215,24 @@ def corner_calls(M, rec, rng, reps):
             E.OriginsEngine.get_mainstream_flow(s(dm), s(w), s(vc), s(v1), rc, a, vf, lam, T)
 
 
+CURRENT = {}
+
+
+def on_case(case, built):
+    CURRENT["case"], CURRENT["built"] = case, built
+
+
 def decide_network(ob, rec):
     """Network boundary: q_o inferred from the queue update and w+ of every origin."""
+    case, built = CURRENT.get("case"), CURRENT.get("built")
+    if case is not None and built is not None and any(built.net is n_ for n_ in (getattr(ob, "net", None), built.net)):
+        # capacities, variants and parameters are those the caller declared (and last set), not whatever the
+        # live objects happen to hold
+        try:
+            if set(id(e_) for e_ in built.elements.values()) >= set(id(ob.objmap[e_["id"]]) for g_ in ("links", "origins", "dests") for e_ in ob.desc[g_]):
+                O.apply_declared(ob, case["desc"], built, rec)
+        except Exception:
+            pass
     if not O.admissible(ob) or ob.opts.get("positive_next_queue"):
         return
     ins, outs, org, dst = R.topology(ob.desc)
@@ -286,10 +302,10 @@ def run(M, rec, tier, seed, k, n):
         corner_calls(M, rec, rng, 20000 if tier == "quick" else 250000)
         vectorised_calls(M, rec, rng, 1500 if tier == "quick" else 20000)
         W.numpy_steps(M, rec, rng, 200 if tier == "quick" else 1500, draws=3, mutate_prob=0.6,
-                      mutate_prefer=("flow_equation", "capacity", "fd"))
+                      mutate_prefer=("flow_equation", "capacity", "fd"), before_case=on_case)
         W.symbolic_steps(M, rec, rng, symvals, 12 if tier == "quick" else 80, points=2)
-        W.inplace_pairs(M, rec, rng, 40 if tier == "quick" else 400, allow_inf=False)
-        W.closed_loop(M, rec, rng, 6 if tier == "quick" else 12, 100 if tier == "quick" else 300, on_step=on_step)
+        W.inplace_pairs(M, rec, rng, 40 if tier == "quick" else 400, allow_inf=False, before_case=on_case)
+        W.closed_loop(M, rec, rng, 7 if tier == "quick" else 14, 90 if tier == "quick" else 260, on_step=on_step)
     finally:
         sm.uninstall()
         pm.uninstall()
